@@ -324,6 +324,50 @@ def renamed_task(p, cfg, rec):
     elaborate_text(p, text)
 
 
+class _Splitter(py4hw.Logic):
+    """behavioural leaf with two output ports (used with ONE wire on both of them)"""
+    def __init__(self, parent, name, a, lo, hi):
+        super().__init__(parent, name)
+        self.a = self.addIn('a', a)
+        self.lo = self.addOut('lo', lo)
+        self.hi = self.addOut('hi', hi)
+
+    def propagate(self):
+        self.lo.put(self.a.get() & 1)
+        self.hi.put(self.a.get() >> 1)
+
+
+def twice_driven_task(p, cfg, rec):
+    """one wire attached to two output ports of the SAME leaf: the construction API refuses it (a second driver); if it ever lets
+    it through, generation must not return text in which that net has two drivers"""
+    how = cfg['how']
+    with quiet():
+        s = py4hw.HWSystem()
+        a, r = s.wire('a', 2), s.wire('r', 1)
+        try:
+            def body(b):
+                x = b.wire('x', 1)
+                if how == 'inlined primitive (BitsLSBF)':
+                    py4hw.BitsLSBF(b, 'bits', a, [x, x])
+                elif how == 'behavioural leaf':
+                    _Splitter(b, 'split', a, x, x)
+                else:
+                    py4hw.Swap(b, 'swap', b.wire('p', 1), b.wire('q', 1), b.wire('sw', 1), x, x)
+                Buf(b, 'o', x, r)
+            box = D.Box(s, 'top', {'a': a}, {'r': r}, body)
+        except Exception as e:
+            p.res['refused'] += 1
+            p.note('%s: the construction API refused: %r' % (p.config, e))
+            return
+    text, exc = generate(box)
+    if text is None:
+        p.res['refused'] += 1
+        p.note('%s: generator refused: %r' % (p.config, exc))
+        return
+    p.res['programs'] += 1
+    elaborate_text(p, text)
+
+
 def dangling_task(p, cfg, rec):
     """designs under construction: nets that no leaf drives and/or no leaf reads, hooked to ports of structural children only.
     The circuit is incomplete (that is the user's business, so 'has a driver' is not demanded for the nets the circuit itself
@@ -547,6 +591,8 @@ def tasks_for(tier, seed):
             t.append(('circuit under construction: %s, width %d' % (shape, w), dangling_task, {'shape': shape, 'w': w}))
     for how in ('rename both to a new name', 'rename onto the sibling', 'reparentAndRename onto the sibling', 'rename to fresh names'):
         t.append(('local wires renamed after construction: %s' % how, renamed_task, {'how': how, 'w': 8}))
+    for how in ('inlined primitive (BitsLSBF)', 'behavioural leaf', 'structural block (Swap)'):
+        t.append(('one wire on two output ports of one block: %s' % how, twice_driven_task, {'how': how}))
     for edit in ('expose-internal-net', 'add-input-and-stage', 'add-internal-stage', 'expose-then-stage'):
         for entry in ('module', 'hierarchy'):
             for reuse in (False, True):
